@@ -9,6 +9,7 @@ CONSTANTS
   CtxMayExpire = TRUE
   ClientMayClose = FALSE
   HandlerMayClose = FALSE
+  HandlerMayHijack = FALSE
   StartMayFail = FALSE
   SpareFields = TRUE
   SeqRestart = FALSE
